@@ -29,12 +29,14 @@ def run(ctx, pm, extra=None):
     n = pm.SIZES[ctx.tier]
     batch = getattr(pm, "BATCH", 2000)
     done = 0
-    while done < n and not ctx.violations:
+    # a broken correspondence on a known-finding replay or corpus case is not the end: keep looking for a
+    # concrete failing input among the generated cases
+    while done < n and not ctx.has_input():
         k = min(batch, n - done)
         eng.check(pm.gen(ctx, k), "generated")
         done += k
         ctx.log(f"{done}/{n} cases, {ctx.cov.get('evaluations', 0)} observations compared")
-    if extra is not None and not ctx.violations:
+    if extra is not None and not ctx.has_input():
         extra(ctx, eng)
     if not ok and not ctx.violations:
         ctx.violation("proof-broken.txt",
@@ -52,7 +54,7 @@ def run(ctx, pm, extra=None):
 def replay(pm, path):
     """Re-run a replay file: prints implementation | model | spec side by side; exit 1 if the property fails or
     the correspondence differs."""
-    ctx = core.Ctx(pm.PROP, "quick", 0)
+    ctx = core.Ctx(pm.PROP, "quick", 0, clean=False)
     binary, log = core.build_harness()
     if binary is None:
         print(log)
